@@ -4,6 +4,7 @@ import (
 	"encoding/json"
 	"fmt"
 	"os"
+	"os/exec"
 	"path/filepath"
 	"regexp"
 	"runtime/pprof"
@@ -86,6 +87,7 @@ type checkOpts struct {
 	repo, verif, spec, prop, tier string
 	timeout                       int
 	writeLock                     bool
+	canary                        string // must-fail run of a seeded change on a scratch copy
 }
 
 func hasProp(ps []string, id string) bool {
@@ -168,7 +170,16 @@ func checkMain(args []string) int {
 			defer pprof.StopCPUProfile()
 		}
 	}
+	opts.canary = os.Getenv("VERIF_CANARY")
 	code, ev := runCheck(opts)
+	if opts.canary != "" {
+		return code // a must-fail run on a scratch copy: no evidence is written
+	}
+	if opts.tier == "thorough" && code == 0 {
+		if cov, ok := ev["coverage"].(map[string]any); ok {
+			cov["must_fail_canaries"] = runCanaries(opts)
+		}
+	}
 	ev["wall_s"] = time.Since(start).Seconds()
 	evPath := filepath.Join(opts.verif, "evidence", opts.prop+".json")
 	os.MkdirAll(filepath.Dir(evPath), 0o755)
@@ -223,6 +234,9 @@ func runCheck(opts checkOpts) (int, map[string]any) {
 		return fail("no function under contract serves " + opts.prop)
 	}
 	outDir := filepath.Join(opts.verif, "out", opts.prop)
+	if opts.canary != "" {
+		outDir = filepath.Join(opts.verif, "out", "canary", opts.canary, opts.prop)
+	}
 	os.RemoveAll(outDir)
 	var all []*obResult
 	var engineErrs []string
@@ -270,15 +284,17 @@ func runCheck(opts checkOpts) (int, map[string]any) {
 		}
 	}
 	tick("vcgen")
-	if len(missing) > 0 {
-		// a function under contract disappeared: the contract cannot be checked
-		return fail("functions under contract not found in the source tree: " + strings.Join(missing, ", "))
+	// A function under contract that no longer exists cannot meet its contract: the property's
+	// argument has a hole there. Reported as a violation of the obligation "<function>/exists".
+	var structural [][2]string
+	for _, k := range missing {
+		structural = append(structural, [2]string{k + "/exists", "the function under contract " + k + " is not in the source tree any more: its contract, which the argument for " + opts.prop + " relies on, cannot be established"})
 	}
 	if len(engineErrs) > 0 {
 		sort.Strings(engineErrs)
 		return fail("code outside the supported subset or unusable contract: " + strings.Join(uniq(engineErrs), "; "))
 	}
-	if len(all) == 0 && len(effAll) == 0 {
+	if len(all) == 0 && len(effAll) == 0 && len(structural) == 0 {
 		return fail("zero obligations generated")
 	}
 	// lock: every clause recorded for the property must still produce obligations
@@ -320,8 +336,18 @@ func runCheck(opts checkOpts) (int, map[string]any) {
 		if len(lock.Clauses[opts.prop]) == 0 {
 			return fail("no lock entry for " + opts.prop + " (run with --lock on the pinned tree)")
 		}
-		if len(gone) > 0 {
-			return fail("contract clauses that produced obligations on the pinned tree produce none now (vacuity guard): " + strings.Join(gone, ", "))
+		for _, c := range gone {
+			fnPart := c
+			if j := strings.Index(c, "/"); j > 0 {
+				fnPart = c[:j]
+			}
+			already := false
+			for _, st := range structural {
+				already = already || st[0] == fnPart+"/exists"
+			}
+			if !already {
+				structural = append(structural, [2]string{c, "the contract clause " + c + " produced obligations on the unchanged tree and produces none on the current code (the return site, loop or call it speaks about is gone): it is not established"})
+			}
 		}
 	}
 	// solve
@@ -450,6 +476,15 @@ func runCheck(opts checkOpts) (int, map[string]any) {
 			vioFuncs[r.O.Func] = true
 		}
 	}
+	for _, st := range structural {
+		violations++
+		rp := filepath.Join(opts.verif, "out", "replay", safeName.ReplaceAllString(opts.prop+"__"+st[0], "_")+".json")
+		os.MkdirAll(filepath.Dir(rp), 0o755)
+		data, _ := json.MarshalIndent(map[string]any{"property": opts.prop, "obligation": st[0], "kind": "structural", "what": st[1],
+			"failing_input_found": false, "note": "no solver query: the obligation cannot be generated from the current code"}, "", " ")
+		os.WriteFile(rp, data, 0o644)
+		effLines = append(effLines, fmt.Sprintf("VIOLATION property=%s replay=%s obligation=%s no-failing-input-found", opts.prop, rp, st[0]))
+	}
 	for fn, n := range pathTotal {
 		// a function that fails an obligation on every path (an unconditional panic) has no
 		// reachable return either: that is the violation's consequence, reported as the violation
@@ -472,6 +507,9 @@ func runCheck(opts checkOpts) (int, map[string]any) {
 	}
 	// report violations
 	replayDir := filepath.Join(opts.verif, "out", "replay")
+	if opts.canary != "" {
+		replayDir = filepath.Join(opts.verif, "out", "canary", opts.canary, "replay")
+	}
 	os.MkdirAll(replayDir, 0o755)
 	var vioNames []string
 	for _, r := range all {
@@ -640,3 +678,75 @@ func (en *Engine) regionTerm(vc *VC, f *Finding) (string, error) {
 }
 
 var _ = ssa.Function{}
+
+// runCanaries is the self-test of the thorough tier: every seeded change recorded as caught by
+// this property's check is applied to a scratch copy of the current working tree and the quick
+// check is run on the copy; it must report a violation there. The result goes to the evidence
+// (a canary that no longer applies to the current tree is skipped, one that is no longer
+// detected is reported on stderr).
+func runCanaries(opts checkOpts) []any {
+	var out []any
+	metas, _ := filepath.Glob(filepath.Join(opts.verif, "seeded", "*", "meta.json"))
+	sort.Strings(metas)
+	for _, mf := range metas {
+		data, err := os.ReadFile(mf)
+		if err != nil {
+			continue
+		}
+		var meta struct {
+			ID       string `json:"id"`
+			CaughtBy []struct {
+				Check string `json:"check"`
+			} `json:"caught_by"`
+		}
+		if json.Unmarshal(data, &meta) != nil {
+			continue
+		}
+		mine := false
+		for _, c := range meta.CaughtBy {
+			mine = mine || c.Check == opts.prop
+		}
+		if !mine {
+			continue
+		}
+		rec := map[string]any{"seeded_change": meta.ID}
+		scratch, err := os.MkdirTemp("", "govc-canary-")
+		if err != nil {
+			rec["result"] = "skipped: " + err.Error()
+			out = append(out, rec)
+			continue
+		}
+		func() {
+			defer os.RemoveAll(scratch)
+			if o, err := exec.Command("rsync", "-a", "--exclude", ".git", opts.repo+"/", scratch+"/").CombinedOutput(); err != nil {
+				rec["result"] = "skipped: copy failed: " + truncate(string(o), 200)
+				return
+			}
+			patch := filepath.Join(filepath.Dir(mf), "patch.diff")
+			cmd := exec.Command("patch", "-p1", "-s", "-F3", "--no-backup-if-mismatch", "-d", scratch, "-i", patch)
+			if o, err := cmd.CombinedOutput(); err != nil {
+				rec["result"] = "skipped: the change does not apply to the current tree: " + truncate(string(o), 200)
+				return
+			}
+			self, _ := os.Executable()
+			run := exec.Command(self, "check", opts.prop, "quick")
+			run.Dir = opts.verif
+			run.Env = append(os.Environ(), "VERIF_REPO="+scratch, "VERIF_CANARY="+meta.ID)
+			o, _ := run.CombinedOutput()
+			n := strings.Count(string(o), "VIOLATION property=")
+			code := -1
+			if run.ProcessState != nil {
+				code = run.ProcessState.ExitCode()
+			}
+			if code == 1 && n > 0 {
+				rec["result"] = fmt.Sprintf("detected (%d violating obligations)", n)
+			} else {
+				rec["result"] = fmt.Sprintf("NOT detected (exit %d)", code)
+				fmt.Fprintf(os.Stderr, "must-fail canary %s is not detected by the %s check any more (exit %d)\n", meta.ID, opts.prop, code)
+			}
+		}()
+		out = append(out, rec)
+	}
+	os.RemoveAll(filepath.Join(opts.verif, "out", "canary"))
+	return out
+}
